@@ -45,12 +45,40 @@ def extra(ctx):
     """Small-scope enumeration shared with C01: every sequence of <= 3 (thorough: 4) subscription-control / publish
     operations by two clients next to a logger, checked with the acknowledgement oracle."""
     from checks.c01 import shard_enum
-    from vlib.common import run_shards
+    from vlib.common import derive_seed, run_shards
 
     depth = 3 if ctx.quick else 4
     res = run_shards(shard_enum, [(i, 16, depth, {"ack", "framing"}, "C19", False) for i in range(16)])
     res.notes.append(f"sub-domain enumerated completely: every sequence of <= {depth} subscription-control / publish operations "
                      "(16 symbols, 2 acting clients + a logger module), ACK accounting after every round")
+    res.merge(run_shards(shard_pool, [(derive_seed(ctx.seed, 900 + i), ctx.scale(1, 12)) for i in range(4)]))
+    res.notes.append("full dynamic-id pool next to a logger: all 100 dynamic ids assigned, further dynamic requests (refused: no "
+                     "acknowledgement, no logger copy), departures and re-use; ACK accounting (requester and logger copies) after every round")
+    return res
+
+
+def shard_pool(seed, n):
+    from hypothesis import strategies as st
+
+    from vlib.common import Result, Violation, hyp_run
+    from vlib.monitors import monitor_setup
+    from vlib.script import pool_cycle_ops, run_script
+
+    res = Result()
+
+    def body(v):
+        tc, refusals, cycles = v
+        cfg = {"timecode": tc, "timing": True, "log": "silent"}
+        ops, must = pool_cycle_ops(monitor_setup(), 2, [], refusals, cycles)
+        try:
+            run_script(cfg, ops, {"ack", "framing", "identity"}, "C19", res, harvest=lambda w, r: None)
+        except Violation as e:
+            raise Violation(e.key, e.what, {"kind": "pool", "cfg": cfg, "ops": ops})
+        res.count("full-pool-histories")
+        res.shape("pool", tc, refusals, len(cycles))
+
+    cyc = st.tuples(st.sampled_from([0, 0, 1, 5, 50]), st.integers(0, 2), st.sampled_from([0, 1, 2]))
+    hyp_run(body, st.tuples(st.booleans(), st.integers(1, 3), st.lists(cyc, max_size=3)), seed, n, res)
     return res
 
 
@@ -65,6 +93,11 @@ CHECK = SimCheck(
 def _replay_extra(tr):
     from checks.c01 import run_enum_script
 
+    if tr.get("kind") == "pool":
+        from vlib.script import run_script
+
+        run_script(tr["cfg"], tr["ops"], {"ack", "framing", "identity"}, "C19")
+        return
     run_enum_script(tr["cfg"], tr["ops"], None, {"ack", "framing"}, "C19")
 
 
